@@ -89,7 +89,11 @@ def script_for(execs):
             lines.append("scanner 0 0")
         for s in x["scans"]:
             did = (did + 1) % 4000
-            lines.append("data %d %s" % (did, yv.hx(s["data"])))
+            if s.get("data_lines"):
+                lines += s["data_lines"]       # the data is assembled by the driver in slot 1
+                did = 1
+            else:
+                lines.append("data %d %s" % (did, yv.hx(s["data"])))
             fl = (F_MATCH if "match" in s["flags"] else 0) | (F_NOMATCH if "nomatch" in s["flags"] else 0)
             plan = ",".join("%d:%s" % (k, a) for k, a in s.get("plan", [])) or "-"
             if x.get("api") == "rules":
